@@ -81,6 +81,7 @@ func (c *Ctx) approvalSites(rule string, s *Slashing, entry *ssa.Function, batch
 
 // WatermarkGuards: O1 origin, O2/O3 guards, for entry functions of one kind.
 func (c *Ctx) WatermarkGuards(prop string, s *Slashing, kind string) {
+	prop = homeProp(kind)
 	type ent struct {
 		fn    *ssa.Function
 		batch bool
@@ -151,6 +152,7 @@ func (c *Ctx) WatermarkGuards(prop string, s *Slashing, kind string) {
 
 // WatermarkConversions: O5 widen / O6 narrow over the rules implementation package.
 func (c *Ctx) WatermarkConversions(prop string, s *Slashing, kind string) {
+	prop = homeProp(kind)
 	ruleW := prop + ".O5 conv.widen"
 	ruleN := prop + ".O6 conv.narrow"
 	nW, nN := 0, 0
@@ -349,6 +351,7 @@ func onlyFeedsPutUint(cv *ssa.Convert) bool {
 // "none" marker, (b) by its own decoder, (c) in fresh objects built by import/export, (d) with the request's value of
 // the matching role, at a point every path to which has passed the watermark comparison and the bound.
 func (c *Ctx) StateStoreDiscipline(prop string, s *Slashing, kind string) {
+	prop = homeProp(kind)
 	rule := prop + ".O8 state.writers"
 	state := s.AttState
 	if kind == "prop" {
@@ -455,4 +458,12 @@ func (c *Ctx) StateStoreDiscipline(prop string, s *Slashing, kind string) {
 	if bad == 0 {
 		c.R.OK(rule, kind, "-", fmt.Sprintf("%d stores to watermark fields: decoder, 'none' marker, fresh import/export objects, or the request value after the comparison", n))
 	}
+}
+
+// homeProp is the property a shared watermark obligation belongs to, whichever property evaluates it.
+func homeProp(kind string) string {
+	if kind == "prop" {
+		return "C02"
+	}
+	return "C01"
 }
